@@ -15,6 +15,25 @@ ASSUMPTIONS = [
 ]
 
 PROPS = {
+    "C14": {
+        "rule": "random claims objects and markings (possibly empty, possibly only nested / only array elements), decoy maxima in [-3,50] or none, 1-3 encode() calls on one "
+                "Issuer object, expires_in_seconds on a quarter of the valid cases; every second case carries exactly one invalid path (unknown member, index out of range, "
+                "non-numeric / negative / overflowing index, member name into an array, path through a scalar, no leading slash, empty path, path inside an already listed "
+                "claim) at a random position of the list. oracle: valid => Ok and round trip (C01) for each call, invalid => Err, never a panic, exp in [t0+n,t1+n]. "
+                "non-trivial = invalid-path case, or several calls, or decoy maximum <= 0, or only nested markings; distinct = distinct (kind,input)",
+        "explanation": "",
+        "trusted_base": [],
+        "assumptions": ["the clock (chrono::Utc::now) and thread_rng are oracles: exp and the random draws are read back from the token"],
+    },
+    "C01": {
+        "rule": "random claims objects (depth 2-4, width<=3; empty, numeric-looking, non-ASCII, sibling-prefix keys; equal sibling values) with random non-empty markings "
+                "listed descendants first, decoy settings none/1/5, cnf in 1 of 6, HS256 (all 13 algorithms on a 2% subsample): Issuer::encode, read-back of salts, insertion "
+                "positions, decoys and shuffle from the token by independent decoding, model must reproduce the token exactly; then Holder::verify vs model; oracle: claims == "
+                "original (+cnf), paths == marked paths with names and values. non-trivial = some marked node is nested or an array element; distinct = distinct (kind,input)",
+        "explanation": "",
+        "trusted_base": [],
+        "assumptions": [],
+    },
     "C12": {
         "rule": "reference-issued tokens (random claims/markings, sha-256/384/512) with exactly one seeded defect out of 23 kinds (non-array / arity 0,1,4 disclosure; "
                 "3-element disclosure in a placeholder; 2-element disclosure in _sd; non-string / _sd / ... name; name collision; the same digest in one _sd twice, in two _sd lists, "
